@@ -453,9 +453,32 @@ def C_axis_diag(repo, clause):
                                 upper = ors and found == {(0, 1), (0, 2), (1, 2)}
                                 if upper and fn.cfg.postdominates(s, fn.stmt_of(c)):
                                     ok, why = True, "followed on every path by the lower-triangular validation (raise unless cell[0,1], cell[0,2], cell[1,2] are 0)"
+            arith = False
             if not ok:
                 why = "np.diag(cell) is used as the box lengths with NO orthorhombic guard: for a tilted cell the diagonal is not a lattice vector"
-            obs.append(Ob("Caxis", clause, fn, c, ok, why, slot="diag:%s" % re.sub(r"\s+", " ", ast.unparse(fn.stmt_of(c)))[:70]))
+                # recognised wrong use: the diagonal is the modulus / divisor / bound of an arithmetic operation (wrap, count, window)
+                par = fn.parents.get(c)
+                hops = 0
+                while par is not None and hops < 3 and not arith:
+                    if isinstance(par, ast.BinOp) and isinstance(par.op, (ast.Mod, ast.Div, ast.FloorDiv)):
+                        arith = True
+                    elif isinstance(par, ast.AugAssign) and isinstance(par.op, (ast.Mod, ast.Div, ast.FloorDiv)):
+                        arith = True
+                    elif isinstance(par, ast.Call) and call_name(par) in ("mod", "remainder", "fmod", "divide", "floor_divide"):
+                        arith = True
+                    par = fn.parents.get(par)
+                    hops += 1
+                if not arith:
+                    # the diagonal is first bound to a local that is then used as modulus / divisor
+                    st_ = fn.stmt_of(c)
+                    if isinstance(st_, ast.Assign) and len(st_.targets) == 1 and isinstance(st_.targets[0], ast.Name):
+                        nm_ = st_.targets[0].id
+                        for b_ in fn.own_nodes():
+                            if isinstance(b_, (ast.BinOp, ast.AugAssign)) and isinstance(b_.op, (ast.Mod, ast.Div, ast.FloorDiv)):
+                                rhs = b_.right if isinstance(b_, ast.BinOp) else b_.value
+                                if any(isinstance(x, ast.Name) and x.id == nm_ for x in ast.walk(rhs)):
+                                    arith = True
+            obs.append(Ob("Caxis", clause, fn, c, ok, why, slot="diag:%s" % re.sub(r"\s+", " ", ast.unparse(fn.stmt_of(c)))[:70], positive=arith))
     floor("Caxis", "np.diag(cell) sites", n, 6)
     # the orthorhombic test itself: all six off-diagonal entries must be examined
     co = repo.fn("Atoms.cell_is_orthorhombic")
@@ -469,7 +492,7 @@ def C_axis_diag(repo, clause):
                 sides = [ast.unparse(c_.left), ast.unparse(c_.comparators[0])]
                 if "self.cell" in sides and any("np.diag(self.cell)" in sd for sd in sides if sd != "self.cell"):
                     whole = True
-            if isinstance(c_, ast.Call) and call_name(c_) in ("allclose", "array_equal") and len(c_.args) >= 2:
+            if isinstance(c_, ast.Call) and call_name(c_) in ("array_equal",) and len(c_.args) >= 2:
                 sides = [ast.unparse(a_) for a_ in c_.args[:2]]
                 if "self.cell" in sides and any("np.diag(self.cell)" in sd for sd in sides if sd != "self.cell"):
                     whole = True
@@ -480,10 +503,20 @@ def C_axis_diag(repo, clause):
                 if None not in ij and ij[0] != ij[1]:
                     entries.add(ij)
         ok = whole or len(entries) == 6
+        tol = [c_ for c_ in ast.walk(e) if isinstance(c_, ast.Call) and call_name(c_) in ("allclose", "isclose")]
+        angles = [c_ for c_ in ast.walk(e) if isinstance(c_, ast.Call) and call_name(c_) in ("cell_abc_alpha_beta_gamma", "arccos", "degrees", "cell_angles")]
+        detail = ""
+        if tol:
+            ok = False
+            detail = " -- the test goes through `%s`, which has an implicit tolerance (rtol=1e-5, atol=1e-8): a slightly tilted cell is classed as orthorhombic and every caller then drops the tilt" % ast.unparse(tol[0])[:70]
+        elif angles:
+            ok = False
+            detail = " -- the test looks at the cell ANGLES (`%s`): right angles do not make the matrix diagonal (rotated or permuted frame), but every caller uses np.diag(cell) as the box" % ast.unparse(angles[0])[:60]
+        elif not ok:
+            detail = " -- only the off-diagonal entries %s are examined: a cell with other non-zero off-diagonal entries is classed as orthorhombic" % sorted(entries)
         obs.append(Ob("Caxis", clause, co, rets[0], ok,
-                      "orthorhombic test compares the whole cell matrix with its diagonal part%s" % (
-                          "" if ok else " -- only the off-diagonal entries %s are examined: a cell with other non-zero off-diagonal entries is classed as orthorhombic" % sorted(entries)),
-                      slot="orthorhombic-test", positive=bool(entries) and len(entries) < 6))
+                      "orthorhombic test compares the whole cell matrix exactly with its diagonal part%s" % detail,
+                      slot="orthorhombic-test", positive=bool(tol) or bool(angles) or (bool(entries) and len(entries) < 6)))
     return obs
 
 
@@ -904,4 +937,135 @@ def C_quaternion_layout(repo, clause):
             positive = True
             detail = "axis is rotated onto coordinate %d; distance from the axis is measured in coordinates %s" % (k[0], sorted(cols))
     obs.append(Ob("Cquat", clause, fn, qc[0] if qc else fn.node, ok, detail, slot="farthest-from-axis-columns", positive=positive))
+    return obs
+
+
+def C_roll_gate(repo, clause):
+    """In the pose loop of the search, the second rotation (the roll about the matched axis that brings the orientation
+    point into place) is applied whenever the match has more than two atoms.  Rolling is never harmful (the pose is
+    re-checked afterwards); NOT rolling is only harmless for an exactly collinear pattern.  A condition other than the
+    atom count in front of the roll therefore places every off-axis atom of the replacement at an arbitrary roll angle
+    for the patterns it excludes."""
+    fn = repo.fn("find_pattern_in_structure")
+    calls = [c for c in calls_in(fn) if call_name(c) == "quaternion_from_two_vectors_around_axis"]
+    if len(calls) != 1:
+        raise AnalysisError("Croll: the roll about the matched axis (quaternion_from_two_vectors_around_axis) is not called exactly once in the search")
+    c = calls[0]
+    loops = [a for a in fn.ancestors(c) if isinstance(a, ast.For)]
+    if not loops:
+        raise AnalysisError("Croll: the roll is not inside the pose loop")
+    extra = []
+    counts = []
+    for t, pol, k in norm_guards(fn, c, stop=loops[0]):
+        te = expand(fn, t)
+        names = {x.id for x in ast.walk(te) if isinstance(x, ast.Name)} - {"len", "np"}
+        is_len = isinstance(te, ast.Compare) and all(isinstance(x, ast.Call) and call_name(x) == "len" or const_value(x) is not None for x in [te.left] + te.comparators)
+        if is_len:
+            counts.append(t)
+        else:
+            extra.append((t, pol, te))
+    obs = []
+    obs.append(Ob("Croll", clause, fn, c, bool(counts), "the roll about the matched axis is applied under the atom-count test%s" % (
+        "s " + ", ".join("`%s`" % ast.unparse(x) for x in counts) if counts else ": NO count test found"), slot="roll-count-gate", undecided=True))
+    tol = False
+    if extra:
+        # where does the extra condition come from?
+        seen = set()
+        work = [extra[0][2]]
+        while work and len(seen) < 40:
+            e = work.pop()
+            for x in ast.walk(e):
+                if isinstance(x, ast.Name) and x.id not in seen:
+                    seen.add(x.id)
+                    for d in fn.own_nodes():
+                        if isinstance(d, ast.Assign) and any(isinstance(tg, ast.Name) and tg.id == x.id for tg in d.targets):
+                            work.append(d.value)
+                if isinstance(x, ast.Constant) and isinstance(x.value, float):
+                    tol = True
+        tol = tol or "atol" in seen
+    obs.append(Ob("Croll", clause, fn, fn.stmt_of(c), not extra,
+                  "no other condition stands between a match with more than two atoms and its roll%s" % (
+                      "" if not extra else " -- the roll is SKIPPED unless `%s` is %s%s" % (
+                          ast.unparse(extra[0][0])[:60], extra[0][1],
+                          "; that condition is derived from a tolerance, so a nearly-collinear search pattern gets an arbitrary roll and every off-axis atom of the replacement lands at an arbitrary angle about the axis" if tol else "")),
+                  slot="roll-unconditional", positive=bool(extra) and tol, undecided=not (bool(extra) and tol)))
+    return obs
+
+
+def C_return_shape(repo, clause):
+    """find_pattern_in_structure has two result shapes selected by return_positions_and_quats (index tuples only / index
+    tuples, positions, rotations).  Every return statement must be governed by that flag and have the matching arity,
+    and the replacement - which passes the flag as True - unpacks exactly three values."""
+    fn = repo.fn("find_pattern_in_structure")
+    flag = "return_positions_and_quats"
+    if flag not in fn.params:
+        raise AnalysisError("Cret: find_pattern_in_structure no longer has the parameter %s" % flag)
+    obs = []
+    rets = [r for r in fn.own_nodes() if isinstance(r, ast.Return)]
+    floor("Cret", "return statements", len(rets), 2)
+    for r in sorted(rets, key=lambda n: n.lineno):
+        pol_flag = None
+        for t, pol, k in norm_guards(fn, r):
+            if isinstance(t, ast.Name) and t.id == flag:
+                pol_flag = pol
+        arity = len(r.value.elts) if isinstance(r.value, ast.Tuple) else 1
+        if pol_flag is None and isinstance(r.value, ast.IfExp) and isinstance(r.value.test, ast.Name) and r.value.test.id == flag:
+            a3 = len(r.value.body.elts) if isinstance(r.value.body, ast.Tuple) else 1
+            a1 = len(r.value.orelse.elts) if isinstance(r.value.orelse, ast.Tuple) else 1
+            obs.append(Ob("Cret", clause, fn, r, a3 == 3 and a1 == 1, "conditional return: arity %d with the flag, %d without" % (a3, a1), slot="return-shape:ifexp", positive=True))
+            continue
+        if pol_flag is None and not isinstance(r.value, (ast.List, ast.Tuple, ast.Constant, ast.Dict, ast.Set)):
+            obs.append(Ob("Cret", clause, fn, r, False, "`%s` is not governed by %s and its shape cannot be read off the statement" % (ast.unparse(r)[:50], flag),
+                          slot="return-shape:ungoverned", undecided=True))
+            continue
+        if pol_flag is None:
+            ok = False
+            d = "`%s` is NOT governed by %s: with the flag set the caller unpacks three values (index tuples, positions, rotations) and gets %s" % (
+                ast.unparse(r)[:50], flag, "a single value - a ValueError instead of an empty result" if arity == 1 else "%d values" % arity)
+        else:
+            ok = (arity == 3) if pol_flag else (arity == 1)
+            d = "`%s` under %s=%s has arity %d" % (ast.unparse(r)[:50], flag, pol_flag, arity)
+        obs.append(Ob("Cret", clause, fn, r, ok, d, slot="return-shape:%s" % ("3" if pol_flag else ("1" if pol_flag is False else "ungoverned")), positive=True))
+    rp = repo.fn("replace_pattern_in_structure")
+    for c in calls_named(rp, "find_pattern_in_structure"):
+        kv = kwarg(c, flag)
+        st = rp.stmt_of(c)
+        n_t = len(st.targets[0].elts) if isinstance(st, ast.Assign) and isinstance(st.targets[0], ast.Tuple) else 1
+        want = 3 if (kv is not None and const_value(kv) is True) else 1
+        obs.append(Ob("Cret", clause, rp, c, n_t == want, "the replacement asks for %s and unpacks %d value(s)" % ("positions and rotations" if want == 3 else "index tuples only", n_t),
+                      slot="caller-unpack", positive=True))
+    return obs
+
+
+def C_element_gate_equality(repo, clause):
+    """Starting atoms are those whose element EQUALS the first pattern element.  The helper receives one element symbol
+    (a str) from the search: a membership test `t in element` on a str is a substring test ('C' in 'Cl')."""
+    fn = repo.fn("atoms_of_type")
+    obs = []
+    if len(fn.params) < 2:
+        raise AnalysisError("Cgate: atoms_of_type signature changed")
+    el = fn.params[1]
+    cmps = [n for n in fn.own_nodes() if isinstance(n, ast.Compare) and any(isinstance(x, ast.Name) and x.id == el for x in ast.walk(n))]
+    if len(cmps) != 1:
+        raise AnalysisError("Cgate: element test of atoms_of_type not found")
+    c = cmps[0]
+    # what do the callers pass?
+    scalar_callers = []
+    for f2 in repo.all_fns():
+        for call in calls_named(f2, "atoms_of_type"):
+            a = call.args[1] if len(call.args) > 1 else kwarg(call, el)
+            if a is None:
+                continue
+            e = expand(f2, a)
+            if isinstance(e, ast.Subscript) and not isinstance(e.slice, ast.Slice) and "elements" in ast.unparse(e.value):
+                scalar_callers.append((f2, call))
+            elif isinstance(e, ast.Constant) and isinstance(e.value, str):
+                scalar_callers.append((f2, call))
+    is_eq = len(c.ops) == 1 and isinstance(c.ops[0], ast.Eq)
+    is_in = len(c.ops) == 1 and isinstance(c.ops[0], ast.In) and isinstance(c.comparators[0], ast.Name) and c.comparators[0].id == el
+    obs.append(Ob("Cgate", clause, fn, c, is_eq,
+                  "atoms_of_type selects by `%s`%s" % (ast.unparse(c), "" if is_eq else (
+                      ": a membership test against the argument, but %s passes ONE element symbol (a str) - `in` is then a SUBSTRING test, so 'C' qualifies for 'Cl', 'N' for 'Na', 'S' for 'Si' and the element of the first pattern atom is no longer enforced" % (
+                          scalar_callers[0][0].qualname if scalar_callers else "no recognised caller") if is_in else ": not an equality test")),
+                  slot="element-equality", positive=is_in and bool(scalar_callers), undecided=not (is_in and bool(scalar_callers))))
     return obs
